@@ -16,9 +16,14 @@
     domain for one load: values typed as scalars, well-formed names, well-formed
     trees, no two variables for one leaf, all sources agreeing on the shape at
     every path, outside the shape of the open finding C20-F4 and — only for
-    [fix3 = false], the code before the repair — of C20-F3. *)
+    [fix3 = false], the code before the repair — of C20-F3.  The first block of
+    theorems uses the syntactic guard of C20-F4 ([guard_F4]: no variable
+    continues with two or more name segments below a list index) and is
+    parametric in [fix3]; the `_F4n` block restates the sentences for [fix3 =
+    true] under the narrowed guard [guard_F4n] (the defect's actual shape). *)
 From HV Require Import Base.Prelude C20.Model C20.Spec C20.Facts C20.MergeProofs C20.LoadProofs C20.Proofs.
 From HV Require Import C20.SchemaModel C20.SchemaPinned Gen.SchemaTables C20.SchemaProofs C20.ScopeProofs C20.MergePanic C20.NamingProofs C20.SplitProofs.
+From HV Require Import C20.DottedBase C20.DottedMerge C20.DottedProofs C20.DottedSplit.
 From Coq Require Import Permutation.
 Open Scope string_scope.
 
@@ -128,12 +133,162 @@ Print Assumptions C20_in_scope_b_sound.
 (** [guard_F4n] is the evaluator's version of the C20-F4 guard, narrowed to where the defect
     shows (no map at the list element in defaults and file, or two variables sharing element
     and first name segment); the theorems' syntactic [guard_F4] implies it, so no load the
-    theorems speak about is excused.  For names of the F4 shape outside [guard_F4n] the
-    property is checked on every run (v_prop must hold, all orders), not proved. *)
+    theorems speak about is excused.  Names of the F4 shape outside [guard_F4n] are covered by
+    the `_F4n` theorems below (for the code as it is, [fix3 = true]). *)
 Theorem C20_guard_F4n_narrower :
   forall d f ne, guard_F4 ne = false -> guard_F4n d f ne = false.
 Proof. exact guard_F4n_narrower. Qed.
 Print Assumptions C20_guard_F4n_narrower.
+
+(* ------------------------------------------------------------------ the same sentences under the NARROWED guard of C20-F4
+
+   For the code as it is in /repo ([fix3 = true], [fix4 = false]).  [domainN] is
+   [domain] with the evaluator's [guard_F4n d f ... = false] in place of the
+   syntactic [guard_F4 ... = false]: a variable may continue with two or more
+   name segments below a list index (MECHANISMS_AUTHENTICATORS_0_CONFIG_USER)
+   provided defaults or file hold a map at that list element and no other
+   variable shares the element and the first name segment.  [convert] leaves
+   such a remainder as ONE entry with a dotted key ("config.user"); the proofs
+   (C20/Dotted*.v) follow it through koanfFromEnv — maps.Unflatten inside
+   mergeMaps resolves it only when its map arrives as the SOURCE of a merge —
+   to the last merge into defaults+file, after which no dotted key is left.
+   The theorems above (for [fix3 = true]) are instances: [C20_domain_in_domainN]. *)
+
+Theorem C20_domain_in_domainN :
+  forall to_real pfx d f env tenv,
+    domain true to_real pfx d f env tenv -> domainN to_real pfx d f env tenv.
+Proof. exact domain_domainN. Qed.
+Print Assumptions C20_domain_in_domainN.
+
+Theorem C20_load_meets_spec_F4n :
+  forall sh to_real pfx d f env tenv,
+    perm_fun sh -> domainN to_real pfx d f env tenv ->
+    exists t, load sh to_real true false pfx d (Some f) env = Ok t /\ Tidy (Map t) /\
+              forall p, view p (Map t) = spec_view d f tenv p.
+Proof. exact load_meets_spec_n. Qed.
+Print Assumptions C20_load_meets_spec_F4n.
+
+Theorem C20_env_order_independent_F4n :
+  forall sh sh' to_real pfx d f env env' tenv,
+    perm_fun sh -> perm_fun sh' -> Permutation env env' ->
+    domainN to_real pfx d f env tenv ->
+    exists t t', load sh to_real true false pfx d (Some f) env = Ok t /\
+                 load sh' to_real true false pfx d (Some f) env' = Ok t' /\
+                 Tidy (Map t) /\ Tidy (Map t') /\
+                 forall p, view p (Map t) = view p (Map t').
+Proof. exact env_order_independent_n. Qed.
+Print Assumptions C20_env_order_independent_F4n.
+
+Theorem C20_env_wins_per_leaf_F4n :
+  forall sh to_real pfx d f env tenv,
+    perm_fun sh -> domainN to_real pfx d f env tenv ->
+    exists t, load sh to_real true false pfx d (Some f) env = Ok t /\
+              forall e, In e tenv -> view (fst e) (Map t) = NLeaf (snd e).
+Proof. exact env_wins_per_leaf_n. Qed.
+Print Assumptions C20_env_wins_per_leaf_F4n.
+
+Theorem C20_defaults_fill_F4n :
+  forall sh to_real pfx d f env tenv,
+    perm_fun sh -> domainN to_real pfx d f env tenv ->
+    exists t, load sh to_real true false pfx d (Some f) env = Ok t /\
+              forall p, env_view tenv p = NNone ->
+                        view p (Map t) = njoin (view p (Map d)) (view p (Map f)) /\
+                        (view p (Map f) = NNone -> view p (Map t) = view p (Map d)).
+Proof. exact defaults_fill_n. Qed.
+Print Assumptions C20_defaults_fill_F4n.
+
+Theorem C20_file_env_equivalent_F4n :
+  forall sh sh' to_real pfx d c f env tenv,
+    perm_fun sh -> perm_fun sh' ->
+    domainN to_real pfx d f env tenv -> domainN to_real pfx d c [] [] ->
+    split_of c f tenv ->
+    exists t t', load sh to_real true false pfx d (Some f) env = Ok t /\
+                 load sh' to_real true false pfx d (Some c) [] = Ok t' /\
+                 Tidy (Map t) /\ Tidy (Map t') /\
+                 forall p, view p (Map t) = view p (Map t').
+Proof. exact file_env_equivalent_n. Qed.
+Print Assumptions C20_file_env_equivalent_F4n.
+
+(** ... for every subset [sel] of the leaves of [c] moved to the environment;
+    the guard is evaluated on the file that remains ([keep_map sel c]) *)
+Theorem C20_file_env_equivalent_splits_F4n :
+  forall sh sh' to_real pfx d c sel env tenv,
+    perm_fun sh -> perm_fun sh' ->
+    in_scope d c [] ->
+    typed_env to_real (norm_env pfx env) = Some tenv ->
+    Permutation tenv (sel_leaves sel (Map c)) ->
+    guard_F4n d (keep_map sel c) (norm_env pfx env) = false ->
+    exists t t', load sh to_real true false pfx d (Some (keep_map sel c)) env = Ok t /\
+                 load sh' to_real true false pfx d (Some c) [] = Ok t' /\
+                 Tidy (Map t) /\ Tidy (Map t') /\
+                 forall p, view p (Map t) = view p (Map t').
+Proof. exact file_env_equivalent_splits_n. Qed.
+Print Assumptions C20_file_env_equivalent_splits_F4n.
+
+(** ... and with a condition on the variables alone: the file that remains after a
+    split still holds every map and list of [c], so only the second clause of
+    [guard_F4n] can fire; [guard_F4s ne = false] = no two variables lie below the
+    same list element and first name segment where one of them continues with two
+    or more name segments (…_0_CONFIG_USER + …_0_CONFIG_PASSWORD is such a pair,
+    and there the loader does lose one of them for some map order) *)
+Theorem C20_file_env_equivalent_splits_F4s :
+  forall sh sh' to_real pfx d c sel env tenv,
+    perm_fun sh -> perm_fun sh' ->
+    in_scope d c [] ->
+    typed_env to_real (norm_env pfx env) = Some tenv ->
+    Permutation tenv (sel_leaves sel (Map c)) ->
+    guard_F4s (norm_env pfx env) = false ->
+    exists t t', load sh to_real true false pfx d (Some (keep_map sel c)) env = Ok t /\
+                 load sh' to_real true false pfx d (Some c) [] = Ok t' /\
+                 Tidy (Map t) /\ Tidy (Map t') /\
+                 forall p, view p (Map t) = view p (Map t').
+Proof. exact file_env_equivalent_splits_s. Qed.
+Print Assumptions C20_file_env_equivalent_splits_F4s.
+
+(** merge.go on trees that hold dotted keys ([DT]: keys may be dotted, first
+    segments unique within a map; [dview] = the view through the dotted keys;
+    [DK t pi s] = at [pi] the tree still holds a dotted key starting with [s];
+    [ExclL dest src] = [src] shows nothing where [dest] holds a dotted key):
+    no panic, later wins per leaf, and a dotted key of the result was one of
+    the destination, or one of the source where the destination holds nothing *)
+Theorem C20_merge_dotted_keys :
+  forall sh, perm_fun sh -> forall cl dest src,
+    dest <> Nil -> src <> Nil -> DT dest -> DT src -> dcompat dest src -> ExclL dest src ->
+    exists r, merge_with sh cl dest src = Ok r /\ r <> Nil /\ DT r /\
+              (forall p, dview p r = njoin (dview p dest) (dview p src)) /\
+              (forall pi s, DK r pi s -> DK dest pi s \/ (DK src pi s /\ dview pi dest = NNone)).
+Proof. exact merge_with_dview. Qed.
+Print Assumptions C20_merge_dotted_keys.
+
+(** the hypotheses of the F4n theorems are satisfiable by a load OUTSIDE the
+    syntactic guard: the file holds an authenticator with a [config] map, the
+    environment sets MECHANISMS_AUTHENTICATORS_0_CONFIG_PASSWORD, another key
+    of the same element, a key of a new element and a plain leaf *)
+Theorem C20_domainN_nonvacuous :
+  exists tenv, domainN (fun s => Leaf s) "P_" [] exn_f exn_env tenv /\ length tenv = 4 /\
+               guard_F4 (norm_env "P_" exn_env) = true /\
+               In ([SK "mechanisms"; SK "authenticators"; SI 0; SK "config"; SK "password"], "secret") tenv.
+Proof. exact domainN_nonvacuous. Qed.
+Print Assumptions C20_domainN_nonvacuous.
+
+(** ... and those of the splits theorem by a split that moves a nested option
+    of a list element (MECHANISMS_AUTHENTICATORS_0_CONFIG_PASSWORD) and a plain
+    leaf to the environment, the element and its [config] map staying in the file *)
+Theorem C20_split_example_F4n :
+  exists tenv,
+    in_scope [] exn_c [] /\
+    typed_env (fun s => Leaf s) (norm_env "P_" exn_senv) = Some tenv /\
+    Permutation tenv (sel_leaves exn_sel (Map exn_c)) /\
+    guard_F4n [] (keep_map exn_sel exn_c) (norm_env "P_" exn_senv) = false /\
+    guard_F4 (norm_env "P_" exn_senv) = true /\ length tenv = 2.
+Proof. exact split_example_n. Qed.
+Print Assumptions C20_split_example_F4n.
+
+Theorem C20_split_guard_example :
+  guard_F4s (norm_env "P_" exn_senv) = false /\
+  guard_F4s (norm_env "P_" [("P_A_0_CONFIG_USER", "u"); ("P_A_0_CONFIG_PASSWORD", "p")]) = true.
+Proof. exact split_example_s. Qed.
+Print Assumptions C20_split_guard_example.
 
 (** the hypotheses of the theorems above are satisfiable by a load with
     defaults, a file with a list hole, an overriding variable, a variable that
@@ -223,3 +378,19 @@ Theorem C20_F4_refuted :
     view (parse_path nk) (Map r) <> NLeaf v.
 Proof. exact F4_refuted. Qed.
 Print Assumptions C20_F4_refuted.
+
+(** C20-F4 where the list element EXISTS: the second clause of [guard_F4n] is the
+    defect, not caution.  Two options of one element from the environment
+    (A_0_CONFIG_USER, A_0_CONFIG_PASSWORD; the file holds the element and its
+    [config] map; each variable alone is inside the F4n theorems) give different
+    results for the two orders of the environment: one of them is dropped *)
+Theorem C20_F4_sharing_refuted :
+  exists env env' p,
+    Permutation env env' /\
+    in_scope_b [] exs_f (typed_env tr_id (norm_env "P_" env)) = true /\
+    (forall a, In a env -> guard_F4n [] exs_f (norm_env "P_" [a]) = false) /\
+    guard_F4s (norm_env "P_" env) = true /\
+    top_view p (load (sh_bits []) tr_id true false "P_" [] (Some exs_f) env) <>
+    top_view p (load (sh_bits []) tr_id true false "P_" [] (Some exs_f) env').
+Proof. exact F4_sharing_refuted. Qed.
+Print Assumptions C20_F4_sharing_refuted.
